@@ -128,10 +128,30 @@ def run_C16(res, tier, seed, t_end, bad):
     res.cells |= out['cells']
     res.samples.append({'pattern': 'h[a-c]*o', 'subject': 'hbllo', 'impl': Fn.impl_glob(b'h[a-c]*o', b'hbllo'),
                         'python_port_of_stringmatchlen': Fn.redis_glob(b'h[a-c]*o', b'hbllo')})
+    # the users of the matcher with patterns that contain sets and escapes, published to literally
+    if not res.findings:
+        pats = [b'ch[1]', b'a\\*b', b'[ab', b'h[0-9]', b'c?1', b'k\\', b'\\**', b'ab\\**d', b'[^a]*', b'x[a-c]y', b'*', b'[]', b'[^]']
+        cases = []
+        for p in pats:
+            chans = [p, b'ch1', b'a*b', b'axb', b'*x', b'ab*zzd', b'ab*d', b'h5', b'xby', b'k\\', b'[ab', b'a']
+            cases.append([('open', 2), [b'set', p, b'1'], [b'set', b'ch1', b'1'], [b'set', b'ab*d', b'1'], [b'set', b'*x', b'1'], [b'keys', p], [b'scan', b'0', b'match', p],
+                          ('cmd', 2, [b'psubscribe', p])] + [[b'publish', c, b'm'] for c in chans])
+        Mx.run_cases(res, 'C16', cases, tier, seed, t_end, 100, TRACK + (Mn.mon_pubsub,), PROPS['C16']['scope'], label='pubsub-glob')
     # the users of the matcher: KEYS, SCAN MATCH, PSUBSCRIBE delivery through the whole stack
     if not res.findings:
         plan = Cp.plan_multi(['pubsub', 'key', 'scan', 'str', 'set', 'hash'], budget(tier, 40, 80), churn=False)
         Cp.run_campaign(res, 'C16', plan, budget(tier, 25, 250), seed, PROPS['C16']['scope'], deadline=t_end)
+
+
+import matrices as Mx
+
+
+def matrix_pre(res, prop, tier, seed, t_end, specs, observers=()):
+    for label, cases, sample in specs:
+        if res.findings:
+            return
+        Mx.run_cases(res, prop, cases(), tier, seed, t_end, sample, observers, PROPS[prop]['scope'] if label not in ('ttl-rules', 'missing-keys', 'floats') else None,
+                     label=label)
 
 
 def generic(prop, plan_q, plan_t, n_q, n_t, observers=(), versions=(6, 7), pre=None):
@@ -186,9 +206,14 @@ def parser_function_level(res, tier, seed):
         sock._process_command = lambda fields: got.append(list(fields))
         k = rng.randint(0, min(6, len(prefix)))
         cuts = sorted(rng.sample(range(len(prefix) + 1), k))
-        for a, b in zip([0] + cuts, cuts + [len(prefix)]):
-            if b > a:
-                sock.sendall(prefix[a:b])
+        try:
+            for a, b in zip([0] + cuts, cuts + [len(prefix)]):
+                if b > a:
+                    sock.sendall(prefix[a:b])
+        except BaseException as e:   # noqa
+            res.findings.append({'kind': 'parser', 'verdict': 'violation', 'stream': prefix.hex(), 'cuts': cuts,
+                                 'what': 'exception %s escaped sendall while the stream was written in chunks %r' % (type(e).__name__, cuts)})
+            return
         res.evaluations += 1
         res.cells.add(('parser', len(reqs), min(len(got), 4), cutpos == len(stream)))
         if got != parsed:
@@ -282,6 +307,9 @@ def twin_expired_deleted(res, tier, seed, t_end):
 
 
 def run_C07(res, tier, seed, t_end, bad):
+    matrix_pre(res, 'C07', tier, seed, t_end, [('ttl-rules', Mx.ttl_cases, 400)])
+    if res.findings:
+        return
     Cp.run_campaign(res, 'C07', plan_ttl(60), budget(tier, 50, 800), seed, None, (), deadline=t_end)
     Cp.run_campaign(res, 'C07', Cp.plan_multi(['ttl', 'tx', 'str', 'server', 'key', 'list'], 60, churn=False), budget(tier, 15, 200), seed + 3,
                     None, (), deadline=t_end)
@@ -456,7 +484,46 @@ def scan_iterations(res, tier, seed, t_end):
         res.notes.append('exhaustive: sizes 0..25 x COUNT 1..30 x {no pattern, 2 patterns} x 4 scan commands')
 
 
+def scan_type_oracle(res, tier, seed, t_end):
+    """SCAN with MATCH and TYPE together: exactly the keys of that type matching the pattern (independent oracle)"""
+    im = I.Impl(7, seed)
+    im.open(1)
+    keys = {b'ka': ('string', [b'set', b'ka', b'1']), b'kb': ('list', [b'rpush', b'kb', b'x']), b'kc': ('set', [b'sadd', b'kc', b'x']),
+            b'kd': ('hash', [b'hset', b'kd', b'f', b'v']), b'ke': ('zset', [b'zadd', b'ke', b'1', b'x']), b'xa': ('string', [b'set', b'xa', b'2'])}
+    for k, (t, f) in keys.items():
+        im.send(1, corr.encode_request(f))
+    for t in ('string', 'list', 'set', 'hash', 'zset'):
+        for pat in (None, b'k*', b'?a', b'k[a-c]'):
+            for cnt in (1, 2, 10):
+                got, cur, guard = [], b'0', 0
+                while True:
+                    f = [b'scan', cur, b'count', str(cnt).encode(), b'type', t.encode()] + ([b'match', pat] if pat else [])
+                    o, crash, _, _ = im.send(1, corr.encode_request(f))
+                    r = o.get(1, [None])[0]
+                    guard += 1
+                    if crash or not isinstance(r, list) or guard > 50:
+                        res.findings.append({'kind': 'scan', 'verdict': 'violation', 'property': 'C15', 'what': 'SCAN TYPE/MATCH misbehaves: %r -> %r %r' % (f, r, crash)})
+                        return
+                    got += r[1]
+                    cur = r[0] if isinstance(r[0], bytes) else str(r[0]).encode()
+                    if cur == b'0':
+                        break
+                want = sorted(k for k, (kt, _) in keys.items() if kt == t and (pat is None or Fn.redis_glob(pat, k)))
+                res.evaluations += guard
+                res.cells.add(('scan-type', t, pat, cnt))
+                if sorted(got) != want or len(got) != len(set(got)):
+                    res.findings.append({'kind': 'scan', 'verdict': 'violation', 'property': 'C15', 'clause': 'scan_match_type',
+                                         'what': 'SCAN TYPE %s MATCH %r COUNT %d returned %r, expected %r' % (t, pat, cnt, got, want)})
+                    return
+
+
 def run_C15(res, tier, seed, t_end, bad):
+    matrix_pre(res, 'C15', tier, seed, t_end, [('scan-filters', Mx.scan_filter_cases, 250)])
+    if res.findings:
+        return
+    scan_type_oracle(res, tier, seed, t_end)
+    if res.findings:
+        return
     scan_iterations(res, tier, seed, t_end)
     if not res.findings:
         Cp.run_campaign(res, 'C15', Cp.plan_single(['scan', 'set', 'hash', 'zset', 'str'], 50, mutate=0.25), budget(tier, 30, 400), seed,
@@ -626,7 +693,37 @@ def run_C18(res, tier, seed, t_end, bad):
                 return
     res.samples.append({'converter': 'int', 'value': '007', 'impl': Fn.py_conv('int', b'007')})
     # through the commands: INCR overflow, INCRBYFLOAT non-finite, ZADD/ZSCORE
+    matrix_pre(res, 'C18', tier, seed, t_end, [('floats', Mx.floats_cases, 400), ('strings', lambda: [c for c in Mx.strings_cases() if c and c[0][0] in (b'set', b'hset') and len(c) == 3], 300)],
+               (mon_nonfinite,))
+    if res.findings:
+        return
     Cp.run_campaign(res, 'C18', Cp.plan_single(['str', 'zset', 'hash'], 50, mutate=0.1), budget(tier, 25, 300), seed, None, (), deadline=t_end)
+
+
+def mon_nonfinite(session, ev, name, before, out_i, crash_i):
+    """INCRBYFLOAT/HINCRBYFLOAT never store NaN or infinity; no NaN score is ever stored"""
+    import math
+    from fakeredis._zset import ZSet
+    mine = out_i.get(ev[1], []) if ev[0] == 'cmd' else []
+    failed = any(isinstance(r, I.RawError) for r in mine)
+    for i, db in session.impl.srv.dbs.items():
+        for k, it in db._dict.items():
+            v = it.value
+            if name in ('incrbyfloat',) and not failed and isinstance(v, bytes) and k == ev[2][1]:
+                try:
+                    if not math.isfinite(float(v)):
+                        Mn.add(session, 'C18', 'incrbyfloat_never_nonfinite', '%r left %r = %r' % (ev[2], k, v))
+                except ValueError:
+                    pass
+            if name == 'hincrbyfloat' and not failed and isinstance(v, dict):
+                for fld, x in v.items():
+                    try:
+                        if len(ev[2]) > 2 and fld == ev[2][2] and not math.isfinite(float(x)):
+                            Mn.add(session, 'C18', 'incrbyfloat_never_nonfinite', '%r left field %r = %r' % (ev[2], fld, x))
+                    except ValueError:
+                        pass
+            if isinstance(v, ZSet) and any(s != s for s, m in v._byscore):
+                Mn.add(session, 'C18', 'zadd_never_nan', 'NaN score stored in %r' % k)
 
 
 def struct_unpack(bits):
@@ -858,9 +955,13 @@ RUNNERS = {
     'C12': run_C12,
     'C20': run_C20,
     'C14': run_C14,
-    'C01': generic('C01', Cp.plan_single(['str', 'key', 'ttl'], 60, select=0.03), Cp.plan_single(['str', 'key', 'ttl'], 80, select=0.03), 60, 1200),
-    'C02': generic('C02', Cp.plan_single(['list', 'hash', 'set', 'sort', 'key'], 60), Cp.plan_single(['list', 'hash', 'set', 'sort', 'key'], 80), 60, 1200),
-    'C03': generic('C03', Cp.plan_single(['zset', 'zset', 'set', 'key'], 60), Cp.plan_single(['zset', 'zset', 'set', 'key'], 80), 60, 1200, OBSERVERS['C03']),
+    'C01': generic('C01', Cp.plan_single(['str', 'key', 'ttl'], 60, select=0.03), Cp.plan_single(['str', 'key', 'ttl'], 80, select=0.03), 60, 1200,
+                   pre=lambda res, tier, seed, t_end, bad: matrix_pre(res, 'C01', tier, seed, t_end, [('strings', Mx.strings_cases, 700), ('ttl-rules', Mx.ttl_cases, 250)])),
+    'C02': generic('C02', Cp.plan_single(['list', 'hash', 'set', 'sort', 'key'], 60), Cp.plan_single(['list', 'hash', 'set', 'sort', 'key'], 80), 60, 1200,
+                   pre=lambda res, tier, seed, t_end, bad: matrix_pre(res, 'C02', tier, seed, t_end, [('lists', Mx.lists_cases, 900), ('sets', Mx.sets_cases, 120)])),
+    'C03': generic('C03', Cp.plan_single(['zset', 'zset', 'set', 'key'], 60), Cp.plan_single(['zset', 'zset', 'set', 'key'], 80), 60, 1200, OBSERVERS['C03'],
+                   pre=lambda res, tier, seed, t_end, bad: matrix_pre(res, 'C03', tier, seed, t_end, [('zsets', Mx.zsets_cases, 900), ('floats', Mx.floats_cases, 250)],
+                                                                    OBSERVERS['C03'])),
     'C04': run_C04,
     'C05': generic('C05', pre=lambda res, tier, seed, t_end, bad: __import__('scenarios').run(res, 'C05', tier, seed, t_end, ()),
                    plan_q=Cp.plan_multi(['tx', 'str', 'list', 'set', 'server', 'key', 'ttl', 'zset'], 70, weights=[5, 2, 2, 1, 1, 1, 1, 1]),
@@ -871,7 +972,10 @@ RUNNERS = {
                    n_q=40, n_t=800, observers=OBSERVERS['C06']),
     'C07': run_C07,
     'C08': run_C08,
-    'C09': generic('C09', plan_removal(60), plan_removal(90), 30, 500, OBSERVERS['C09']),
+    'C09': generic('C09', plan_removal(60), plan_removal(90), 30, 500, OBSERVERS['C09'],
+                   pre=lambda res, tier, seed, t_end, bad: matrix_pre(res, 'C09', tier, seed, t_end,
+                                                                    [('missing-keys', lambda: Mx.missing_cases(random.Random(seed), 2 if tier == 'quick' else 12), 330),
+                                                                     ('ttl-rules', Mx.ttl_cases, 120)], OBSERVERS['C09'])),
     'C10': generic('C10', Cp.plan_multi(['pubsub', 'pubsub', 'tx', 'str', 'server'], 70, nconn=(2, 3, 4)),
                    Cp.plan_multi(['pubsub', 'pubsub', 'tx', 'str', 'server'], 90, nconn=(2, 3, 4)), 40, 800, OBSERVERS['C10']),
     'C13': run_C13,
